@@ -158,7 +158,9 @@ def _diff_fields(exp, obs):
             hard.append(f"{k} (texts of separate parts are fused: no white space between them)")
     for k in ("nunits", "utype"):
         if k in exp and exp[k] != obs.get(k):
-            hard.append(f"{k} (C03 e-mail unit clause)")
+            hard.append(f"{k} (C03 e-mail unit clause: every message has exactly one unit; 'empty' when it has no body)")
+    if obs.get("utext") != obs.get("full"):
+        hard.append("utext (the unit's text is not the body / full text)")
     if "full" in exp and exp["full"] != obs.get("full"):
         (soft if any(t[0] == "plainesc" for t in obs.get("full", [])) or len(obs.get("full", [])) > 1
          else hard).append("full (get_full_text() is not the body)")
@@ -260,7 +262,7 @@ def run(ctx):
     # ------------------------------------------------------------------ 4a. validate messages
     traces, meta = [], []
     for it, o in zip(items, mail_out):
-        for path, e in (("eml", o["eml"]), ("mbox", o["mbox"])):
+        for path, e in [("eml", o["eml"]), ("mbox", o["mbox"])] + [("mbox", e) for e in o.get("mbox_pos", [])]:
             traces.append({"id": f"{it['id']}:{path}", "hdr": {"m": it["m"], "kind": "msg"}, "ev": [e]})
             meta.append((it, path, e, o))
     for f, o in zip(FIXTURES, fix_out):
@@ -456,6 +458,25 @@ def _worker_mail(job, wd):
                     out[i]["mbox"] = {"a": "Mbox", "n": 1, "nres": len(rs), "pos": 1, "obs": obs, "eol": eol}
                 except Exception as ex:
                     out[i]["mbox"] = {"a": "Raised", "exc": _exc(ex), "eol": eol}
+    # a message without any body at the first / middle / last position of a three-message mailbox
+    for i, (it, case, b) in enumerate(cases):
+        out[i]["mbox_pos"] = []
+        if it["m"]["body"]["s"] != "nobody":
+            continue
+        others = [j for j in range(len(cases)) if cases[j][0]["m"]["body"]["s"] != "nobody"][:2]
+        if len(others) < 2:
+            continue
+        for pos in (0, 1, 2):
+            order = others[:]
+            order.insert(pos, i)
+            eol = ("lf", "crlf", "lf-noblank")[pos]
+            try:
+                data = g.write_mbox(Path(wd) / f"mbp-{i}-{pos}.mbox", [cases[j][2] for j in order], eol, rngm)
+                rs = list(mbx.read_mbox_format_mail(io.BytesIO(data)))
+                obs = case.project(rs[pos], supp_fn) if len(rs) == 3 else "none"
+                out[i]["mbox_pos"].append({"a": "Mbox", "n": 3, "nres": len(rs), "pos": pos + 1, "obs": obs, "eol": eol})
+            except Exception as ex:
+                out[i]["mbox_pos"].append({"a": "Raised", "exc": _exc(ex), "eol": eol})
     return out
 
 
@@ -477,9 +498,10 @@ def _worker_lines(job, wd):
         try:
             rs = list(mbx.read_mbox_format_mail(io.BytesIO(data)))
             evs.append({"a": "Read", "n": len(rs),
-                        "toks": [g.project_tokens(r.subject, r.body_plain, r.body_html) for r in rs]})
+                        "toks": [g.project_tokens(r.subject, r.body_plain, r.body_html) for r in rs],
+                        "units": [len(list(r.iterate_units())) for r in rs]})
         except Exception as ex:
-            evs.append({"a": "Read", "n": -1, "toks": [], "exc": _exc(ex)})
+            evs.append({"a": "Read", "n": -1, "toks": [], "units": [], "exc": _exc(ex)})
         out.append({"ev": evs, "b64": base64.b64encode(data).decode()})
     return out
 
